@@ -3,7 +3,7 @@ UNITS = {'fs': dict(wrap='wrap.cc', new_block=64),
          # read_all: the internal block size `static const ssize_t read_size = 16 * 1024;` is not a macro; with the real value
          # no query returns (measured, see NOTES.md). The unit is built from a copy of Filesystem.cc in which that one
          # initialiser is VERIF_READ_SIZE (both builds, generated and real).
-         'fsrs4': dict(wrap='wrap.cc', new_block=64, cxxflags=['-DVERIF_READ_SIZE=4'], cuts=[r'^_ZN5phosg8io_errorC1Ei$'],
+         'fsrs4': dict(wrap='wrap.cc', new_block=160, cxxflags=['-DVERIF_READ_SIZE=4'], cuts=[r'^_ZN5phosg8io_errorC1Ei$'],
                        src_subst={'Filesystem.cc': [(r'static const ssize_t read_size = 16 \* 1024;', 'static const ssize_t read_size = VERIF_READ_SIZE;', 2)]}),
          # same TU; the cannot_open_file(const string&) constructor (what() text concatenation only) is an external no-op
          # phosg::fgets uses std::deque<std::string>: engine/shim deque (fixed capacity 8 blocks)
